@@ -1181,13 +1181,15 @@ def check_list_spacing_confinement(ctx: Ctx) -> None:
     for n in iflow.cfg.nodes:
         if n.kind == "test" and tight_attr in norm(n.ast):
             controlled = [x for x in iflow.cfg.nodes if any(b is n for b, _ in all_guards(prog, im, x))]
-            emits = [x for x in controlled if x.kind == "stmt" and isinstance(x.ast, ast.AugAssign)]
+            # what is emitted under the test: `result += ...`, or a local holding the separator (`item_break = ...`)
+            emits = [x for x in controlled if x.kind == "stmt" and (isinstance(x.ast, ast.AugAssign) or (
+                isinstance(x.ast, ast.Assign) and len(x.ast.targets) == 1 and isinstance(x.ast.targets[0], ast.Name)))]
             bad = []
             for x in emits:
                 v = _emitted_constants(prog, im, x.ast.value, x)
                 if not v <= {"\n", ""}:
                     bad.append(x)
-            other = [x for x in controlled if x.kind == "stmt" and not isinstance(x.ast, (ast.AugAssign, ast.Pass))
+            other = [x for x in controlled if x.kind == "stmt" and not isinstance(x.ast, (ast.AugAssign, ast.Pass)) and x not in emits
                      and not (isinstance(x.ast, ast.Assign) and isinstance(x.ast.targets[0], ast.Attribute))]
             ctx.ob("R-NONINT-spacing", f"{im.qual} :: tightness controls only the blank separator line", not bad and not other and bool(emits),
                    "under the tightness test only a (prefix-stripped) blank line may be emitted; "
